@@ -12,6 +12,22 @@
 (* by counting).  Larger counts are sampled by the seeded recorder         *)
 (* (vh surf-random).                                                       *)
 (*                                                                         *)
+(* Two LADDERS cross the small tuples (round 5):                           *)
+(*  MagSet   magnitudes <<base, exp>> (Solids.tla `mag`): EVERY constructor *)
+(*     is called at every magnitude of the ladder, for coarse and fine     *)
+(*     counts (MagCounts: <<rows, cols, sides>>), with and without UV      *)
+(*     options and for flat / tall / even proportions (MagDims) - a fine   *)
+(*     count at a small magnitude makes neighbouring vertices closer than  *)
+(*     any absolute tolerance, a flat shape does the same for opposite     *)
+(*     faces.  Judged scale-invariantly on exact integers.                 *)
+(*  ResSet   resolutions <<rows, cols>> of the round primitives and        *)
+(*     SideSet side counts of the cylinder, around and beyond the powers   *)
+(*     of two of the VERTEX count (ring vertices (rows-1)*cols just below  *)
+(*     / at / above 2^k) and of the counts themselves (127..130), square   *)
+(*     and extreme aspect ratios: where an implementation switches buffer  *)
+(*     strategy, chunking or to a parallel path.  The volume is judged by  *)
+(*     the same exact closed form of the inscribed polyhedron.             *)
+(*                                                                         *)
 (* HOW the constructors are called is part of the case too:                *)
 (*  hist, ord   Every tuple belongs to a HISTORY: the tuples with the same *)
 (*     `hist` are constructed one after the other (in the order of `ord`)  *)
@@ -26,20 +42,22 @@
 (***************************************************************************)
 EXTENDS Solids, TLC, Json
 
-CONSTANTS MaxRows, MaxCols, MaxSides, DimSet, UvSet, Chain, ChainDims, NHist, NConc, Seed
+CONSTANTS MaxRows, MaxCols, MaxSides, DimSet, UvSet, Chain, ChainDims, NHist, NConc, Seed,
+          MagSet, MagCounts, MagDims, MagUvs, ResSet, SideSet
 
 VARIABLE c
 
 Mk(prim, rows, cols, sides, d, uv, chain) ==
     LET base == [kind |-> "prim", id |-> 0, prim |-> prim, rows |-> rows, cols |-> cols, sides |-> sides,
-                 d |-> d, uv |-> uv, chain |-> chain, scale |-> 1, hist |-> 0, ord |-> 0, conc |-> 0]
+                 d |-> d, uv |-> uv, chain |-> chain, scale |-> 1, hist |-> 0, ord |-> 0, conc |-> 0,
+                 mag |-> <<2, 0>>]
     IN [base EXCEPT !.scale = ScaleOf(base)]
 
 KindSeq == <<"uvsphere", "uvsphere_unwelded", "cube_welded", "cube_quads", "cylinder", "hemisphere">>
 PrimIx(p) == CHOOSE i \in DOMAIN KindSeq : KindSeq[i] = p
 \* pseudo-random but fixed function of the tuple (operands stay below 2^31)
 Code(t) == (PrimIx(t.prim) + 7 * t.rows + 31 * t.cols + 131 * t.sides + 17 * t.d[1] + 257 * t.d[2]
-            + 1031 * t.d[3] + 5 * t.uv) % 100003
+            + 1031 * t.d[3] + 5 * t.uv + 613 * t.mag[1] + 4099 * (t.mag[2] + 300)) % 100003
 InHistory(t) ==
     IF t.chain > 0
     THEN [t EXCEPT !.hist = NHist + 100 * PrimIx(t.prim) + t.d[1], !.ord = t.chain]
@@ -59,6 +77,18 @@ ChainCases ==
     {Mk(p, Chain[i], Chain[i], 0, <<d, 0, 0>>, 0, i) : p \in {"uvsphere", "hemisphere"}, i \in DOMAIN Chain, d \in ChainDims}
     \cup {Mk("cylinder", 0, 0, Chain[i], <<d, d, 0>>, 0, i) : i \in DOMAIN Chain, d \in ChainDims}
 
+\* the magnitude ladder: every constructor x every magnitude x coarse/fine counts x UV options x proportions
+AtMag(t, m) == [t EXCEPT !.mag = m]
+MagCases ==
+    {AtMag(Mk(p, n[1], n[2], 0, <<d[1], 0, 0>>, 0, 0), m) : p \in Round, n \in MagCounts, d \in MagDims, m \in MagSet}
+    \cup {AtMag(Mk(p, 0, 0, 0, d, uv, 0), m) : p \in Cubes, d \in MagDims, uv \in MagUvs, m \in MagSet}
+    \cup {AtMag(Mk("cylinder", 0, 0, n[3], <<d[1], d[2], 0>>, uv, 0), m) : n \in MagCounts, d \in MagDims, uv \in MagUvs, m \in MagSet}
+\* the resolution ladder; every large tuple is a history of its own (hist beyond the chains)
+Big(t, i) == [t EXCEPT !.hist = NHist + 1000 + i, !.ord = 0]
+ResCases ==
+    {Big(Mk(KindSeq[r[3]], r[1], r[2], 0, <<16, 0, 0>>, 0, 0), 10 * r[4]) : r \in ResSet}
+    \cup {Big(Mk("cylinder", 0, 0, n[1], <<16, 24, 0>>, n[2] % 6, 0), 10 * n[2] + 1) : n \in SideSet}
+
 \* groups constructed concurrently: member j of group g
 DimSeq == <<8, 16, 24, 48>>
 ConcMember(g, j) ==
@@ -74,14 +104,14 @@ ConcMember(g, j) ==
     IN [t EXCEPT !.conc = g, !.ord = j]
 ConcCases == {ConcMember(g, j) : g \in 1..NConc, j \in 0..7}
 
-All == {InHistory(t) : t \in RoundCases \cup CubeCases \cup CylinderCases \cup EdgeCases \cup ChainCases}
-       \cup ConcCases
+All == {InHistory(t) : t \in RoundCases \cup CubeCases \cup CylinderCases \cup EdgeCases \cup ChainCases \cup MagCases}
+       \cup ConcCases \cup ResCases
 
 Init == c \in All
 Spec == Init /\ [][FALSE]_c
 
 \* generator sanity: the scale keeps every tuple inside the projection's exact range
-GenOK == /\ ScaleOK(c) /\ (c.chain = 0 \/ Admissible(c))
+GenOK == /\ ScaleOK(c) /\ (c.chain = 0 \/ Admissible(c)) /\ MagOK(c.mag)
          /\ (c.conc > 0) # (c.hist > 0)
          /\ c.conc > 0 => Admissible(c)
 Emit == PrintT(ToJson([case |-> c, admissible |-> Admissible(c)]))
